@@ -131,7 +131,7 @@ impl Property for C05 {
     }
     fn budget(&self, tier: Tier) -> Budget {
         match tier {
-            Tier::Quick => Budget { cases: 6000, shards: 16, min_len: 16, max_len: 260 },
+            Tier::Quick => Budget { cases: 12_000, shards: 16, min_len: 16, max_len: 260 },
             Tier::Thorough => Budget { cases: 150_000, shards: 16, min_len: 16, max_len: 260 },
         }
     }
